@@ -121,7 +121,11 @@ pub struct Case {
 
 fn pol(id: u8) -> lightning_signer::policy::simple_validator::SimplePolicy {
     policy_with(|p| {
-        if id == 1 {
+        if id == 2 {
+            // the second policy with every tag family except the on-chain one demoted to a warning
+            p.filter = unrelated_filter(&["policy-onchain"]);
+        }
+        if id == 1 || id == 2 {
             p.max_feerate_per_kw = 5_000;
             p.fee_velocity_control = VelocityControlSpec { limit_msat: FEE_LIMIT_MSAT, interval_type: VelocityControlIntervalType::Hourly };
         }
@@ -666,8 +670,11 @@ fn run_case(case: &Case) -> Res {
 
 fn bases() -> Vec<Case> {
     let mut v = vec![];
-    for pol in 0..2u8 {
+    for pol in 0..3u8 {
         for allow in 0..3u8 {
+            if pol == 2 && allow != 0 {
+                continue;
+            }
             for entry in 0..3u8 {
                 // a wallet spend with change and an allowlisted destination
                 v.push(Case { pol, allow, entry, inputs: vec![(1_000_600, true)], outputs: vec![Out { k: OutK::Wallet(0), value: 600_000 }, Out { k: OutK::Allowlisted, value: 400_000 }], devs: vec![], onchain: false });
